@@ -191,6 +191,32 @@ func TestProp(t *testing.T) {
 			}
 		}
 	}
+	// the two entry points that are handed a reader by another package's scanner, called directly with the caller's reader
+	// (behind a scanner they only ever see a bufio.Reader): preview.RenderPreview and exif2.DecodeJPEGIfd
+	{
+		base := rapid.Custom(func(rt *rapid.T) *gen.ExifFile {
+			return gen.GenExif(rt, gen.Options{Unbuffered: true, MaxForeign: 2})
+		}).Example(int(rec.Env.Seed%100000)*4 + 2)
+		prev := make([]byte, 5000)
+		for i := range prev {
+			prev[i] = byte(i * 13)
+		}
+		for _, in := range []struct {
+			entry string
+			data  []byte
+		}{{"RenderPreview", prev}, {"RenderPreview", prev[:2048]}, {"RenderPreview", prev[:1]}, {"ExifJPEGIfd", base.Enc.II}, {"ExifJPEGIfd", base.Enc.MM}} {
+			for _, ch := range [][]int{{1}, {7}, {2048}, {2047, 1}, {4096}, {1 << 20}} {
+				for _, eof := range []bool{false, true} {
+					c := Case{Entry: in.entry, Input: in.data, Chunks: ch, DataEOF: eof, Origin: "direct-callback-entry"}
+					if f := eval(c); f != nil {
+						if pbt.Report(t, rec, chk.Name, c, f) {
+							return
+						}
+					}
+				}
+			}
+		}
+	}
 	pbt.Run(t, rec, chk, rec.Env.Pick(5000, 150000), 1)
 }
 
